@@ -21,6 +21,23 @@ Out-parameters (a `&mut local` passed to a call) add ("outparam", bb, argidx).
 """
 
 
+_SUCCESS = ("Continue", "Ok", "Some")
+_FAILURE = ("Break", "Err", "None")
+
+
+def _variant_mismatch(p0, rv):
+    """The requested payload is the success side of a `?` (Continue / Ok / Some) but the aggregate builds the failure
+    side (Err / None), or the other way round: the value cannot come from this aggregate. (The names differ across the
+    look-through of Try::branch - ControlFlow::Continue(v) is Result::Ok(v) - so only the side is compared.)"""
+    if not p0.startswith("dc") or ":" not in p0:
+        return False
+    want = p0.split(":", 1)[1]
+    have = rv.get("variant_name")
+    if have is None:
+        return False
+    return (want in _SUCCESS and have in _FAILURE) or (want in _FAILURE and have in _SUCCESS)
+
+
 def _strip(proj):
     """Drop deref elements; keep fields and downcasts."""
     return tuple(p for p in proj if p != "deref")
@@ -175,6 +192,8 @@ class Prov:
             return out
         if k == "agg":
             # look through aggregate when a field is requested
+            if proj and _variant_mismatch(proj[0], rv):
+                return set()
             if proj:
                 p = [x for x in proj]
                 # skip a downcast element
@@ -295,6 +314,8 @@ class Prov:
             out = self._place_at(rv["place"]["l"], _strip(rv["place"]["p"]), bb, idx, stack)
             out.add(("op", "discr", bb, idx))
             return out
+        if k == "agg" and proj and _variant_mismatch(proj[0], rv):
+            return set()
         if k == "agg" and proj:
             p = [x for x in proj]
             while p and p[0].startswith("dc"):
